@@ -267,6 +267,16 @@ def run_neg(sh, ctx):
 			w.write_db(d, sig_order=order, id_attr=id_attr, id_attr_meta=meta)
 			expect_load_failure(ctx, d, cls, dict(id_attr=id_attr, meta=meta, n=n))
 			shutil.rmtree(d)
+		# the id_attr attribute is not in the file at all (deleted with a generic HDF5 tool / written by other software); the ids stored
+		# are the genomes' keys, so a reader that guessed "key" would find every genome
+		d = ctx.workdir / f'n{wi}_noattr'
+		w.write_db(d, sig_order=order, id_attr='key')
+		import h5py as _h5
+		with _h5.File(d / 'signatures.gs', 'r+') as f_:
+			if 'id_attr' in f_.attrs:
+				del f_.attrs['id_attr']
+		expect_load_failure(ctx, d, 'id_attr-attribute-absent', dict(n=n))
+		shutil.rmtree(d)
 		# id attribute column where some genome has NULL
 		if id_attr != 'key':
 			d = ctx.workdir / f'n{wi}_null'
@@ -475,7 +485,7 @@ def run_shard(sh, ctx):
 def finalize(merged, tier, seed, inconclusive):
 	c = merged['counters']
 	need = [f'id_attr:{a}' for a in ID_ATTRS] + ['order:random', 'order:reversed', 'with_unrelated_signatures', 'negative:dropped-signature', 'negative:renamed-id',
-	        'negative:id_attr-none', 'negative:id_attr-misspelt', 'negative:null-id-column', 'negative:ids-of-wrong-kind', 'negative:dir:two-gdb', 'negative:dir:no-signature-file',
+	        'negative:id_attr-none', 'negative:id_attr-attribute-absent', 'negative:id_attr-misspelt', 'negative:null-id-column', 'negative:ids-of-wrong-kind', 'negative:dir:two-gdb', 'negative:dir:no-signature-file',
 	        'directory_ok:db+h5', 'cli_commands', 'big_databases', 'interleaved_queries_on_one_database', 'negative:near-miss-id', 'look_alike_identifier_pairs']
 	for n in need:
 		if c.get(n, 0) == 0:
